@@ -6,6 +6,10 @@ M = core.MANAGER
 
 
 def check(ctx):
+    from . import core8
+
+    core8.relation_defaults(ctx, "C07")
+    core8.registration(ctx, "C07")
     core2.sched_run_definitions(ctx, "C07", want_equiv=True)
     core.cg_relation_lifting(ctx, "C07")
     core.cg_priority_passthrough(ctx, "C07")
